@@ -57,8 +57,10 @@ def run(ctx):
     R = roles(ctx)
     R.insert_fn
     res = c02.r2_3(ctx, R)
-    ctx.obs = [o for o in ctx.obs if not o.rule.startswith("R2.3")]
-    ctx.rule_texts.pop("R2.3", None)
+    # "running" in the guard is the slot map's occupied counter: it must move only together with the slots themselves
+    # (a counter stepped down while its slot stays occupied makes the guard admit more than the limit)
+    ctx.rule("R2.3", "see C02 R2.3 (shared link): slot-map insert / remove keep the occupied counter and the slots in step; no other "
+                     "function writes the bookkeeping")
     counter = res["INSERT"][0]
     ctx.need(counter is not None, "COUNTER")
     ctx.rule("R16.1", "guard covers parked outputs: lhs of the fill guard depends on the slot-map counter and on "
